@@ -61,6 +61,34 @@ def class_consts(model, f):
     return out
 
 
+def measured_by_callers(model, f, want):
+    """the count subtracts a parameter of a checking helper (``_check_available_size(available, required)``): every call in the
+    package hands a measure of the available input (len(<buffer>), <parser>.unparsed_length) in at that position"""
+    params = [a.arg for a in f.node.args.args]
+    subtracted = [k for k, v in want.terms.items() if v < 0 and k in params]
+    if len(subtracted) != 1:
+        return False
+    pos = params.index(subtracted[0]) - (1 if params and params[0] in ('self', 'cls') else 0)
+    calls = []
+    for g in model.functions():
+        if g.module.external or g is f:
+            continue
+        for c_ in ast.walk(g.node):
+            if isinstance(c_, ast.Call) and ((isinstance(c_.func, ast.Name) and c_.func.id == f.name and f.cls is None) or
+                                             (isinstance(c_.func, ast.Attribute) and c_.func.attr == f.name and f.cls is not None)):
+                arg = c_.args[pos] if 0 <= pos < len(c_.args) else next((k.value for k in c_.keywords if k.arg == subtracted[0]), None)
+                calls.append((g, arg))
+    if not calls:
+        return False
+    for g, arg in calls:
+        if arg is None:
+            return False
+        form = lin(arg, {}, single_defs(g.node))
+        if form is None or not any(v > 0 and (k.startswith('ulen(') or k.startswith('len(')) for k, v in form.terms.items()):
+            return False
+    return True
+
+
 def check(ctx, report):
     model = ctx.model
     report.rule('C04.R1', 'NotEnoughData(count): count == needed - available of the strict enclosing guard')
@@ -132,7 +160,8 @@ def check(ctx, report):
             report.add('C04.R1', key, 'guard `%s` is not strict: the reported count can be 0' % ast.unparse(guard))
         elif deficit != want:
             report.add('C04.R1', key, 'guard `%s` says %s bytes are missing, the error reports %s' % (ast.unparse(guard), deficit, want))
-        elif not any(v < 0 and (k.startswith('ulen(') or k.startswith('len(')) for k, v in want.terms.items()):
+        elif not any(v < 0 and (k.startswith('ulen(') or k.startswith('len(')) for k, v in want.terms.items()) and \
+                not measured_by_callers(model, f, want):
             # needed - available: what is subtracted has to measure the input that is there (len of the buffer, unparsed_length of the
             # parser). A count measured against a *declared* length (a field of the message) asks for bytes the sender never writes
             report.add('C04.R1', key, 'the count %s is not measured against the bytes that are available (no len(<input>) / unparsed_length is '
